@@ -81,10 +81,14 @@ def gen_case(run_seed, tier):
             nmax = math.factorial(n)
             n_iso = (wl.choice([1, 2, 3, 4, 6, 10]) if n < 8 else wl.choice([1, 2, 3, 4])) if n >= 4 else wl.randint(1, max(1, nmax))
             calls.append(["iso", min(n_iso, nmax) if wl.random() < 0.97 else nmax + 1, wl.choice([0.05, 0.2, 0.5, 0.9]), wl.random() < 0.6 and n <= 8,
-                          wl.choice([None, None, 3, 10, 40]), wl.random() < 0.4, wl.choice([None, wl.randrange(1000)]), wl.random() < 0.5])
+                          wl.choice([None, None, 3, 10, 40]), wl.random() < 0.4, wl.choice([None, wl.randrange(1000)]), wl.random() < 0.5,
+                          wl.random() < 0.2 and n <= 7])
         elif kind == "orbit":
             bound = wl.choice(["depth", "size", "both"])
-            calls.append(["orbit", wl.randint(1, 3) if bound != "size" else None, wl.randint(1, 10) if bound != "depth" else None,
+            depth = wl.randint(1, 3) if bound != "size" else None
+            if bound == "both" and wl.random() < 0.5:
+                depth = wl.randint(4, 7)  # long walks are safe when a size bound is given as well
+            calls.append(["orbit", depth, wl.randint(1, 10) if bound != "depth" else None,
                           wl.random() < 0.5, wl.random() < 0.4, wl.random() < 0.25])
         elif kind in ("maxedge", "maxnbr"):
             calls.append([kind, wl.randint(1, 4), wl.randrange(4), wl.randint(1, 3), wl.random() < 0.5])
@@ -155,7 +159,8 @@ def run_case(case):
             try:
                 with core.alarm(CALL_TIMEOUT_S, f"C16 {k}"):
                     if k == "iso":
-                        _, n_iso, thr, exh, thresh, label_map, seed, as_float = call
+                        _, n_iso, thr, exh, thresh, label_map, seed, as_float = call[:8]
+                        sort_emit = bool(call[8]) if len(call) > 8 else False
                         if n_iso > math.factorial(n):
                             ctx.probe("iso_request_exceeds_nfact")
                             try:
@@ -166,7 +171,9 @@ def run_case(case):
                         adj = nx.to_numpy_array(G)
                         if not as_float:
                             adj = adj.astype(int)
-                        res = rm.iso_finder(adj, n_iso, rel_inc_thresh=thr, allow_exhaustive=exh, thresh=thresh, label_map=label_map, seed=seed)
+                        res = rm.iso_finder(adj, n_iso, rel_inc_thresh=thr, allow_exhaustive=exh, thresh=thresh, label_map=label_map, seed=seed, sort_emit=sort_emit)
+                        if sort_emit:
+                            ctx.probe("iso_sort_emit")
                         maps = None
                         if isinstance(res, tuple):
                             res, maps = res
@@ -190,7 +197,9 @@ def run_case(case):
                             break
                         if len(mats) < n_iso:
                             ctx.probe("iso_fewer_than_requested")
-                        if not np.array_equal(mats[0], np.rint(nx.to_numpy_array(G)).astype(int)):
+                        # with sort_emit the function documents another order (fewest emitters first): "input first" is
+                        # then not promised, the other clauses are
+                        if not sort_emit and not np.array_equal(mats[0], np.rint(nx.to_numpy_array(G)).astype(int)):
                             ctx.violate("K_iso_input_not_first", step, "first returned matrix is not the input adjacency matrix", sig)
                             break
                         keys = [gref.adj_from_matrix(m.tolist()) for m in mats]
